@@ -119,3 +119,56 @@ Definition c_init (tolbits : Z) (n m : N) (Ptriu A : list trip) (q b h : list dy
   if negb (vsmall tolbits fl ep sp) then 1%N
   else if negb (vsmall tolbits fl ed sd) then 2%N
   else 0%N.
+
+(** * one predictor-corrector iteration ([Newton/Step.v]): residual definitions, the affine and
+    combined right-hand sides (x, z, tau, kappa components), mu, and the step update, all
+    re-evaluated exactly on the recorded binary64 values.
+    Result: 0 ok; 11..14 affine rhs (x, z, tau, kappa); 21..24 combined rhs; 30 mu;
+    41..45 iterate update (x, s, z, tau, kappa). *)
+Definition vclose (tolbits : Z) (fl : dy) (u v scale : list dy) : bool :=
+  Nat.eqb (length u) (length v) && vsmall tolbits fl (vsubd u v) scale.
+Definition sclose (tolbits : Z) (fl : dy) (u v scale : dy) : bool :=
+  small tolbits fl (dsub u v) scale.
+
+Definition c_step (n m deg : N) (Ptriu A : list trip) (q b : list dy)
+           (x s z : list dy) (tau kappa : dy)
+           (r0x r0z : list dy) (r0t r0k : dy)
+           (sigma mu mfac dta dka : dy)
+           (r1x r1z : list dy) (r1t r1k : dy)
+           (dx dz ds : list dy) (dt dk alpha : dy)
+           (x' s' z' : list dy) (tau' kappa' : dy) : N :=
+  let P := symT Ptriu in
+  let tb := 30%Z in
+  let fl := dshift (dmax d1 (dmax (norminf q) (norminf b))) (-60) in
+  let Px := spmv n P x in
+  let Atz := spmv_t n A z in
+  let Ax := spmv m A x in
+  (* residuals *)
+  let rx := vsubd (vsubd (map dneg Atz) Px) (vscald tau q) in
+  let sx := vaddd (vaddd (spmv_t n (absT A) (absv z)) (spmv n (absT P) (absv x))) (absv (vscald tau q)) in
+  let rz := vsubd (vaddd Ax s) (vscald tau b) in
+  let sz := vaddd (vaddd (spmv m (absT A) (absv x)) (absv s)) (absv (vscald tau b)) in
+  (* tau * rtau = tau (q.x + b.z + kappa) + x'Px *)
+  let xPx := ddot x Px in
+  let lt := dmul tau r0t in
+  let rt := dadd (dmul tau (dadd (dadd (ddot q x) (ddot b z)) kappa)) xPx in
+  let st := dadd (dmul (dabs tau) (dadd (dadd (ddot (absv q) (absv x)) (ddot (absv b) (absv z))) (dabs kappa)))
+                 (ddot (absv x) (spmv n (absT P) (absv x))) in
+  let one_m_sigma := dsub d1 sigma in
+  if negb (vclose tb fl r0x rx sx) then 11%N
+  else if negb (vclose tb fl r0z rz sz) then 12%N
+  else if negb (sclose tb fl lt rt st) then 13%N
+  else if negb (sclose tb fl r0k (dmul tau kappa) (dabs (dmul tau kappa))) then 14%N
+  else if negb (vclose tb fl r1x (vscald one_m_sigma r0x) (absv r0x)) then 21%N
+  else if negb (vclose tb fl r1z (vscald one_m_sigma r0z) (absv r0z)) then 22%N
+  else if negb (sclose tb fl r1t (dmul one_m_sigma r0t) (dabs r0t)) then 23%N
+  else if negb (sclose tb fl r1k (dadd (dadd (dneg (dmul sigma mu)) (dmul (dmul mfac dta) dka)) (dmul tau kappa))
+                       (dadd (dadd (dabs (dmul sigma mu)) (dabs (dmul (dmul mfac dta) dka))) (dabs (dmul tau kappa)))) then 24%N
+  else if negb (sclose tb fl (dmul mu (dofZ (Z.of_N deg + 1))) (dadd (ddot s z) (dmul tau kappa))
+                       (dadd (ddot (absv s) (absv z)) (dabs (dmul tau kappa)))) then 30%N
+  else if negb (vclose 45 fl x' (vaddd x (vscald alpha dx)) (vaddd (absv x) (absv (vscald alpha dx)))) then 41%N
+  else if negb (vclose 45 fl s' (vaddd s (vscald alpha ds)) (vaddd (absv s) (absv (vscald alpha ds)))) then 42%N
+  else if negb (vclose 45 fl z' (vaddd z (vscald alpha dz)) (vaddd (absv z) (absv (vscald alpha dz)))) then 43%N
+  else if negb (sclose 45 fl tau' (dadd tau (dmul alpha dt)) (dadd (dabs tau) (dabs (dmul alpha dt)))) then 44%N
+  else if negb (sclose 45 fl kappa' (dadd kappa (dmul alpha dk)) (dadd (dabs kappa) (dabs (dmul alpha dk)))) then 45%N
+  else 0%N.
